@@ -188,6 +188,17 @@ def _shard(arg):
         for seed in base[:16]:
             for name, data in mutate.utf8_substitutions(seed):
                 inputs.append((data, 'mutant:' + name))
+        # many in-range values in the fixed-width numeric fields of a few accepted binary seeds (timestamps, serials)
+        swept = 0
+        for seed in base:
+            if swept >= 3 or len(seed) > 1500 or mutate.looks_textual(seed) or not lib.call(cls.parse_immutable, seed).ok:
+                continue
+            from vf.props import c02  # pylint: disable=import-outside-toplevel
+            fields = [field for field in c02.numeric_fields(cls, seed) if field[1] in (4, 8)][:6]
+            if fields:
+                swept += 1
+                for name, data in mutate.field_sweeps(rng, seed, fields):
+                    inputs.append((data, 'mutant:' + name))
         text = None
         for number in range(per_class):
             seed = base[number % len(base)]
